@@ -219,8 +219,47 @@ def soak(rng, kind, n=None):
     return ops
 
 
+def recycle(rng):
+    """GENERATIONS of automata on an allocator that hands freed blocks back as their last owner left them (`glob recycle=on`:
+    what malloc does; the port's poison fill hides it): three automata are driven through random steps, released in a
+    random order (an interface going away), created again in another order - so that each kind lands on a block another kind
+    (or the same kind in another state) left behind - and then taken through every (state, input) cell of their machines"""
+    kinds = ['map', 'enum', 'sess']
+    ops = ['glob recycle=on', 'clock %d' % rng.choice([0, 5000, 100000])]
+    order = rng.sample(range(3), 3)
+    for a in order:
+        ops.append('fsm new %d %s' % (a, kinds[a]))
+    ops += ['band init 1', 'band choose 1']
+    for _ in range(rng.randint(5, 40)):
+        a = rng.randrange(3)
+        ev = {0: [0, 2, 8, -1, -3, 4, 6, 11, 9, -2], 1: [0, 1, 2, 3], 2: [-1, 0, 1, 2, 3, 4, 5, 6, 7]}[a]
+        ops.append('fsm step %d %d' % (a, rng.choice(ev)))
+        if rng.random() < 0.2:
+            ops.append('clock %d' % rng.choice([0, 500, 1000, 2000, 6000]))
+    for a in rng.sample(range(3), 3):
+        ops.append('fsm free %d' % a)
+    # second generation: the kinds move to other slots / other blocks
+    perm = rng.sample(range(3), 3)
+    kind_at = {}
+    for slot, k in zip(rng.sample(range(3), 3), perm):
+        ops.append('fsm new %d %s' % (slot, kinds[k]))
+        kind_at[slot] = k
+    ops.append('clock 5000000')
+    for slot, k in kind_at.items():
+        nst = {0: 3, 1: 3, 2: 4}[k]
+        ev = {0: [0, 2, 8, -1, -3, 4, 6], 1: [0, 1, 2, 3], 2: [-1, 0, 1, 2, 3, 4, 5, 6, 7]}[k]
+        # first what an ordinary session does with the fresh automaton, then every cell
+        for e in ({0: [0, 2, -3, 8], 1: [3, 2, 1, 0], 2: [2, 3, 4, 1]}[k]):
+            ops.append('fsm step %d %d' % (slot, e))
+        for st in range(nst):
+            for e in ev:
+                ops += ['fsm set %d %d 5000' % (slot, st), 'fsm step %d %d' % (slot, e)]
+    return ops
+
+
 def soak_cases(rng, tier):
     out = [('asoak_%s' % kd, soak(rng, kd)) for kd in AUTO_SOAK]
+    out += [('arecycle%d' % k, recycle(rng)) for k in range(12 if tier == 'quick' else 400)]
     if tier == 'thorough':
         out += [('asoak70k_%s' % kd, soak(rng, kd, 70000)) for kd in ('sess_same', 'tbl_same', 'heard')]
     return out
